@@ -10,7 +10,7 @@ import json, os, subprocess, sys, threading, queue, shutil
 ENV = dict(os.environ, GOFLAGS="-mod=mod", GOPROXY="off", GOSUMDB="off", GOTOOLCHAIN="local",
            PATH="/opt/veriftools/go1.26.8/bin:" + os.environ["PATH"])
 ENV.pop("GOWORK", None)
-ROOT = "/tmp/ms"
+ROOT = "/tmp/ms%d" % os.getpid()
 
 def sh(cmd, cwd, timeout=300, env=ENV):
     try:
